@@ -3,7 +3,7 @@
 (* C15 - configuration loading: precedence of sources, then validation.    *)
 (*                                                                         *)
 (* A configuration structure is a tree; a leaf field is named by its path  *)
-(* of keys (lower case letters and "_").  For a leaf each of these sources *)
+(* of keys (lower case letters, digits, "_" and "-").  For a leaf each of these sources *)
 (* may hold a value (all values distinct, none empty):                     *)
 (*   flagset  a command-line flag bound to the field, explicitly set       *)
 (*   env      the environment variable PREFIX_PATH_TO_FIELD                *)
@@ -41,12 +41,16 @@ Fields == << [path |-> <<"title">>, kind |-> "string"],
              [path |-> <<"direct_leaf", "host">>, kind |-> "string"],
              [path |-> <<"direct_leaf", "port">>, kind |-> "int"],
              [path |-> <<"direct_leaf", "period">>, kind |-> "duration"],
+             \* key spellings with a dash (kept as it is in the environment name) and with a digit
+             [path |-> <<"log-level">>, kind |-> "string"],
+             [path |-> <<"mid", "inner", "max-conn">>, kind |-> "int"],
+             [path |-> <<"direct_leaf", "retry_2nd">>, kind |-> "int"],
              [path |-> <<"mid", "inner", "secure">>, kind |-> "bool"] >>      \* two-valued: never a subject of the precedence scenarios
 NF == Len(Fields)
 NS == NF - 1
 \* fields whose emptiness invalidates their level (required by the level's Validate)
 Required == {<<"title">>, <<"mid", "name">>, <<"mid", "inner", "host">>, <<"direct_leaf", "port">>}
-Prefixes == {"app", "App", "MY_APP", "my_app2"}
+Prefixes == {"app", "App", "MY_APP", "my_app2", "my-app"}
 
 VARIABLES f1, s1, f2, s2, invalid, prefix
 vars == <<f1, s1, f2, s2, invalid, prefix>>
